@@ -338,9 +338,16 @@ func NewShortestPathSearchFromPoint(from b6.FeatureID, weights Weights, w b6.Wor
 	rs := w.FindReferences(from)
 	for rs.Next() {
 		f := w.FindFeatureByID(rs.FeatureID())
-		if p, ok := f.(b6.PhysicalFeature); ok && weights.IsUseable(b6.Segment{Feature: p}) {
-			connected = true
-			break
+		if p, ok := f.(b6.PhysicalFeature); ok {
+			// A zero length segment has no direction, so weights that respect
+			// one-way restrictions would consider it unusable. Test the path
+			// along both directions instead.
+			forwards := b6.Segment{Feature: p, First: 0, Last: 1}
+			backwards := b6.Segment{Feature: p, First: 1, Last: 0}
+			if weights.IsUseable(forwards) || weights.IsUseable(backwards) {
+				connected = true
+				break
+			}
 		}
 		if building := f.Get("#building"); building.IsValid() {
 			buildings = append(buildings, f)
